@@ -132,8 +132,30 @@ def rebuild_summary():
     json.dump(rows, open(os.path.join(base, "SUMMARY.json"), "w"), indent=1)
 
 
+def recheck(only):
+    """Re-run every check against every stored seed (patch applied to /repo temporarily) and refresh meta.json."""
+    base = os.path.join(VERIF, "seeded")
+    for d in sorted(os.listdir(base)):
+        mp = os.path.join(base, d, "meta.json")
+        if not os.path.exists(mp) or (only and d not in only and d.split("-")[0] not in only):
+            continue
+        meta = json.load(open(mp))
+        pid = meta["property"]
+        checks = run_checks(pid, os.path.join(base, d, "patch.diff"))
+        meta["checks_that_fire"] = checks
+        meta["caught_by_own_property_check"] = pid in checks and checks[pid].get("exit") == 1
+        meta["caught_by"] = [c for c, v in checks.items() if isinstance(v, dict) and v.get("exit") == 1]
+        meta["analysis_broken_by"] = [c for c, v in checks.items() if isinstance(v, dict) and v.get("exit") not in (0, 1)]
+        json.dump(meta, open(mp, "w"), indent=1)
+        print(d, "own=%s" % meta["caught_by_own_property_check"], "any=%s" % meta["caught_by"],
+              ("BROKEN=%s" % meta["analysis_broken_by"]) if meta["analysis_broken_by"] else "", checks.get("error", ""), flush=True)
+    rebuild_summary()
+
+
 if __name__ == "__main__":
     if sys.argv[1:] == ["--summary"]:
         rebuild_summary()
+    elif sys.argv[1:2] == ["--recheck"]:
+        recheck(sys.argv[2:])
     else:
         main()
